@@ -14,14 +14,14 @@ import (
 )
 
 type c10Case struct {
-	Stack    StackCfg `json:"stack"`
-	Outcomes []int    `json:"outcomes"` // one releasing holder per entry (completion outcome)
-	Waiters  int      `json:"waiters"`
-	Order    []int    `json:"order"`             // spawn order: actor ids 0..H-1 = holders, H..H+W-1 = waiters
-	Yields   []uint8  `json:"yields"`            // yield counts at successive schedule points
-	Cancels  []int    `json:"cancels,omitempty"` // waiters (by index) whose context is cancelled at the scenario instant (actor ids H+W, H+W+1, ...)
-	Par      bool     `json:"par,omitempty"`     // real-parallel mode: spin at the schedule points instead of yielding
-	Ghosts   int      `json:"ghosts,omitempty"`  // blocking/deadline kinds: earlier callers that blocked and gave up (cancelled) before the scenario
+	Stack    StackCfg  `json:"stack"`
+	Outcomes []int     `json:"outcomes"` // one releasing holder per entry (completion outcome)
+	Waiters  int       `json:"waiters"`
+	Order    []int     `json:"order"`             // spawn order: actor ids 0..H-1 = holders, H..H+W-1 = waiters
+	Yields   yieldList `json:"yields"`            // yield counts at successive schedule points
+	Cancels  []int     `json:"cancels,omitempty"` // waiters (by index) whose context is cancelled at the scenario instant (actor ids H+W, H+W+1, ...)
+	Par      bool      `json:"par,omitempty"`     // real-parallel mode: spin at the schedule points instead of yielding
+	Ghosts   int       `json:"ghosts,omitempty"`  // blocking/deadline kinds: earlier callers that blocked and gave up (cancelled) before the scenario
 }
 
 var c10Kinds = []StackCfg{
@@ -46,7 +46,7 @@ func genC10(t *rapid.T) c10Case {
 		c.Cancels = rapid.SliceOfNDistinct(rapid.IntRange(0, c.Waiters-1), 1, c.Waiters, func(i int) int { return i }).Draw(t, "cancels")
 	}
 	c.Order = rapid.Permutation(seq(h+c.Waiters+len(c.Cancels))).Draw(t, "order")
-	c.Yields = rapid.SliceOfN(rapid.SampledFrom([]uint8{0, 0, 1, 1, 2, 3, 5}), 0, 24).Draw(t, "yields")
+	c.Yields = yieldList(rapid.SliceOfN(rapid.SampledFrom([]uint8{0, 0, 1, 1, 2, 3, 5}), 0, 24).Draw(t, "yields"))
 	if c.Stack.Kind != "queue" {
 		c.Ghosts = rapid.SampledFrom([]int{0, 0, 1, 2, 3}).Draw(t, "ghosts")
 	}
@@ -238,7 +238,7 @@ func TestC10_enum_Coop(t *testing.T) {
 					total *= len(vals)
 				}
 				for code := kit.Shard; code < total; code += kit.Shards {
-					ys := make([]uint8, k)
+					ys := make(yieldList, k)
 					x := code
 					for i := range ys {
 						ys[i] = vals[x%len(vals)]
